@@ -287,3 +287,25 @@ func (n *Node) StoredReceipts(hash []byte, no uint64) *StoredRcptRsp {
 	}
 	return &StoredRcptRsp{Bytes: b, Root: rs.MerkleRoot(), N: len(rs.Get())}
 }
+
+// ValidateTx: "" = accepted, "PANIC: ..." = panicked, anything else = the rejection.
+func (n *Node) ValidateTx(txb []byte) (res string) {
+	defer func() {
+		if r := recover(); r != nil {
+			res = fmt.Sprintf("PANIC: %v\n%s", r, debug.Stack())
+		}
+	}()
+	tx := DecTx(txb)
+	if tx == nil {
+		return "harness: undecodable"
+	}
+	best, err := n.cs.GetBestBlock()
+	if err != nil {
+		return "harness: " + err.Error()
+	}
+	bi := types.NewBlockHeaderInfoFromPrevBlock(best, best.GetHeader().GetTimestamp()+1, n.cfg.Hardfork)
+	if err := types.NewTransaction(tx).Validate(bi.ChainIdHash(), n.Cfg.Public); err != nil {
+		return err.Error()
+	}
+	return ""
+}
